@@ -136,7 +136,14 @@ def make_document(fmt, r, i):
         v = alnum_value(r, allow_empty=True)
         while not isinstance(v, (dict, list)):
             v = alnum_value(r, allow_empty=True)
-        return plistlib.dumps(v)
+        text = plistlib.dumps(v)
+        if i % 4 == 1:
+            # integers beyond 64 bits: plistlib's READER (and so the plist loader) takes an <integer> of any size, although its
+            # writer refuses them - such a file can only be written by hand or by another tool
+            import re
+            big = r.choice((b"18446744073709551616", b"-9223372036854775809", b"123456789012345678901234567890"))
+            text = re.sub(rb"<integer>-?\d+</integer>", b"<integer>" + big + b"</integer>", text, count=1)
+        return text
     return xml_text(r)
 
 
